@@ -16,7 +16,7 @@ use std::path::{Path, PathBuf};
 
 pub const LEVEL: &str = "exploration";
 pub const EXHAUSTIVE: bool = false;
-pub const RULE: &str = "generated: structured call sequences (proptest) of 5..60 ops over all 33 exported functions - up to 3 configs built through every setter incl. valid and invalid layout / data paths, up to 3 contexts, up to 16 live suggestions and 32 live strings; ops: key (any published code, modifier, selection), backspace, commit(i<len), finish, update-engine while idle, ongoing, complete read-out of a suggestion through every getter, re-read of an older suggestion, string_free / string_free(NULL) / suggestion_free / context_free / config_free in any order - encoded in the target's byte code and executed once each by the AddressSanitizer + LeakSanitizer build (1 sequence in 32 with the bundled dictionary); thorough adds a coverage-guided libFuzzer campaign (16 jobs) from that corpus. Oracle (in-target): ASan / LSan reports, every returned char* is NUL-terminated valid UTF-8 equal to what the Rust API reports for the same object and index, a suggestion's strings are unchanged when re-read after later calls on its context and after the context is freed, string_free(NULL) is a no-op. Non-trivial: the sequence leaves >= 1 suggestion to be re-read after its context was freed, or re-reads an older suggestion after a later call; distinct by byte code.";
+pub const RULE: &str = "generated: structured call sequences (proptest) of 5..60 ops over all 33 exported functions - up to 3 configs built through every setter incl. valid and invalid layout / data paths, up to 3 contexts, up to 16 live suggestions and 32 live strings; ops: key (any published code, modifier, selection), backspace, commit(i<len), finish, update-engine while idle, ongoing, complete read-out of a suggestion through every getter, re-read of an older suggestion, string_free / string_free(NULL) / suggestion_free / context_free / config_free in any order - encoded in the target's byte code and executed once each by the AddressSanitizer + LeakSanitizer build (1 sequence in 16 may load the bundled dictionary in some of its configs); thorough adds a coverage-guided libFuzzer campaign (16 jobs) from that corpus. Oracle (in-target): ASan / LSan reports, every returned char* is NUL-terminated valid UTF-8 equal to what the Rust API reports for the same object and index, a suggestion's strings are unchanged when re-read after later calls on its context and after the context is freed, string_free(NULL) is a no-op. Non-trivial: the sequence leaves >= 1 suggestion to be re-read after its context was freed, or re-reads an older suggestion after a later call; distinct by byte code.";
 pub const ASSUMPTIONS: &[&str] = &[
     "AddressSanitizer / LeakSanitizer detect invalid accesses and leaks; a Rust panic inside an extern \"C\" function aborts and is reported by libFuzzer",
     "the decoder never violates the caller's contract (double free, dangling handle, index >= length)",
@@ -90,7 +90,9 @@ pub fn simulate(ops: &[(u8, Op)]) -> (usize, usize, usize) {
 }
 
 fn config_bytes(with_data: bool) -> impl Strategy<Value = [u8; 4]> {
-    (any::<u8>(), 1u8..16, any::<u8>(), 0u8..8).prop_map(move |(l, d, lo, hi)| [l, if with_data { 0 } else { d }, lo, hi])
+    // in "with data" sequences half of the configs name the bundled data directory, so that contexts
+    // are also re-configured between a config with and one without it
+    (any::<u8>(), 1u8..16, any::<u8>(), 0u8..8, any::<bool>()).prop_map(move |(l, d, lo, hi, pick)| [l, if with_data && pick { 0 } else { d }, lo, hi])
 }
 
 pub fn sequence(with_data: bool) -> impl Strategy<Value = ([u8; 4], Vec<(u8, Op)>)> {
@@ -166,7 +168,7 @@ pub fn run(run: &Run) {
     {
         let mut st = run.stats.lock().unwrap();
         for i in 0..n {
-            let data = i % 32 == 31;
+            let data = i % 16 == 15;
             let (h, ops) = if data { with_data.new_tree(&mut runner).unwrap().current() } else { plain.new_tree(&mut runner).unwrap().current() };
             let bytes = encode(h, &ops);
             let dir = if data { &ddir } else { &dirs[i % ndirs].0 };
